@@ -131,12 +131,34 @@ def sympy_orders(jobs):
         return {}
 
 
+_WDRV = None
+
+
+def _worker_init():
+    global _WDRV  # pylint: disable=global-statement
+    from cv.core import Driver
+
+    _WDRV = Driver()
+
+
+def _worker_row(job):
+    """(name, key, gdef json, cap, work) -> (name, key, reference sizes, flag) using this worker's own driver process"""
+    name, key, gj, cap, work = job
+    gd = graphs.GDef.from_json(gj)
+    r = gd.send(_WDRV)
+    if isinstance(r[0], str):
+        return name, key, None, "model-rejects:" + r[0]
+    line = _WDRV.ask(f"spec.growthw 1000000 {cap} {work} ; {gd.pack(gd.central)}")
+    sizes_s, flag = [x.strip() for x in line.split(";")]
+    return name, key, [int(x) for x in sizes_s.split()], flag
+
+
 def main():
     ck = Check("C17")
     ck.lean_obligations(['CvProps.C17', 'CvProps.C17b'], THEOREMS)
     drv = ck.driver()
-    cap = 20000 if not ck.thorough else 1500000
-    work = 30000 if not ck.thorough else 30000000
+    cap = 200000 if not ck.thorough else 1500000
+    work = 1500000 if not ck.thorough else 30000000
     files = sorted(glob.glob(os.path.join(REPO, "cayleypy", "data", "*.csv")))
     rows = []
     for f in files:
@@ -169,19 +191,31 @@ def main():
     orders = sympy_orders(jobs)
     ck.extra["group_orders_by_sympy"] = len(orders)
     exact = prefix = summed = 0
+    # the reference BFS runs in a pool of driver processes (one compiled driver per worker)
+    import multiprocessing as mp
+
+    jobs_rows = []
+    for name, key, stored in rows:
+        if (name, key) in defs:
+            gdj = to_gdef(defs[(name, key)]).to_json()
+            # big states (many stickers / big matrices) are slow per vertex: keep their budget small
+            size = len(gdj["central"])
+            scale = 1 if size <= 12 else 4 if size <= 24 else 25
+            jobs_rows.append((name, key, gdj, max(2000, cap // scale), max(30000, work // scale)))
+    jobs_rows.sort(key=lambda j: -j[3])
+    nproc = max(1, min(14, (os.cpu_count() or 2) - 2))
+    with mp.get_context("fork").Pool(nproc, initializer=_worker_init) as pool:
+        refs = {(n_, k_): (ref_, fl_) for n_, k_, ref_, fl_ in pool.imap_unordered(_worker_row, jobs_rows, chunksize=1)}
     for name, key, stored in rows:
         if (name, key) not in defs or ck.enough():
             continue
         d = defs[(name, key)]
         gd = to_gdef(d)
         case = {"dataset": name, "key": key}
-        r = gd.send(drv)
-        if isinstance(r[0], str):
-            ck.correspondence_break("model rejects a library definition", {"case": case, "model": r[0]})
+        ref, flag = refs.get((name, key), (None, "missing"))
+        if ref is None:
+            ck.correspondence_break("model rejects a library definition", {"case": case, "model": flag})
             continue
-        line = drv.ask(f"spec.growthw 1000000 {cap} {work} ; {gd.pack(gd.central)}")
-        sizes_s, flag = [x.strip() for x in line.split(";")]
-        ref = [int(x) for x in sizes_s.split()]
         ck.case(["row", name, key], len(stored) >= 3, sample={"dataset": name, "key": key, "stored": stored[:8], "reference": ref[:8], "reference_run": flag})
         ck.count("dataset:" + name)
         problems = []
